@@ -60,7 +60,11 @@ class Box(AbstractSpace[Float[Array, " ..."], None]):
         return self.low.shape
 
     def canonical(self) -> Float[Array, " ..."]:
-        return (self.low + self.high) / 2
+        low_finite = jnp.isfinite(self.low)
+        high_finite = jnp.isfinite(self.high)
+        midpoint = (self.low + self.high) / 2
+        one_sided = jnp.where(low_finite, self.low, jnp.where(high_finite, self.high, 0.0))
+        return jnp.where(low_finite & high_finite, midpoint, one_sided)
 
     def sample(self, *, key: Key[Array, ""], mask: None = None) -> Float[Array, " ..."]:
         bounded_key, unbounded_key, upper_bounded_key, lower_bounded_key = jr.split(
